@@ -535,6 +535,10 @@ def orders_for(rng, names, k):
     if n <= 4:
         return [list(p) for p in itertools.permutations(names)]
     out = [list(names), list(reversed(names))]
+    if rng.random() < 0.2:
+        dup = list(names)
+        dup.insert(rng.randrange(len(dup) + 1), rng.choice(names))      # a symbol listed twice (a dict cannot hold it twice)
+        out.append(dup)
     seen = {tuple(o) for o in out}
     while len(out) < k:
         p = list(names)
@@ -591,12 +595,16 @@ def oracle_l1(cfg, st, out, log):
             return []
         return ['%s dependencies: expected ConfigError, got %s %r' % (kind, st, out)]
     if st != 'ret':
-        # an ill-typed formula (by the harness's own typing) may be reported as a formula error; nothing else may fail
-        dummy = {s: (('v', [(Fraction(1), Fraction(0))] * spec_type(sf[s])[1]) if spec_type(sf[s])[0] == 'v'
-                     else ('s', (Fraction(1), Fraction(0)))) for s in symbols if sf[s][0] != 'dep'}
-        _, err = expected_sample(symbols, sf, consts, dummy)
-        if err == 'formula' and st == 'exc' and config_error(out):
-            return []
+        # a formula that is ill-typed ON THE VALUES DRAWN for the failing sample (typing depends on values: MathArray
+        # accepts the number zero next to an array) may be reported as a formula error; nothing else may fail
+        ind0 = [s for s in symbols if sf[s][0] != 'dep']
+        nfull = len(log) // len(ind0) if ind0 else 0
+        last = log[(nfull - 1) * len(ind0):nfull * len(ind0)] if nfull else []
+        drawn = {s: canon(v) for s, (_, v) in zip(ind0, last)}
+        if (not ind0 or nfull) and all(v is not None for v in drawn.values()):
+            _, err = expected_sample(symbols, sf, consts, drawn)
+            if err == 'formula' and st == 'exc' and config_error(out):
+                return []
         return ['closed acyclic well-typed declaration failed: %s %r' % (st, out)]
     fails = []
     if not isinstance(out, list) or len(out) != k:
@@ -726,11 +734,25 @@ Definition l1_case (c : list (string * option expr) * list (string * val) * Q *
       forallb (fun r => match r with (symbols, draws, o) =>
         agree_obs eps (gen_symbols_samples val expr expr_vars eval_expr (map s2l symbols) (mk_sf sf) (mk_env consts) draws) o end) runs
   end.
-(* L2: a grader call: (variables, heads, used, siblings, sample_from, constants, draws, eps, symbols seen, observed) *)
-Definition l2_case (c : list string * list string * list string * list (string * expr) * list (string * option expr)
-                        * list (string * val) * list (list val) * Q * list string * obs) : bool :=
+(* L2: a grader call: ((variables, heads, used, siblings, sample_from, constants, draws, eps, symbols seen, observed),
+                       (blacklist, values the recording function saw in the author's / in the student's expression, per sample)) *)
+Definition scope_agree eps (e : list (str * val)) (seen : list (string * val)) : bool :=
+  forallb (fun kv => match alookup e (s2l (fst kv)) with Some v => v_close eps v (snd kv) | None => false end) seen.
+Definition scopes_agree eps (bl : list string) (r : results val) (sa ss : list (list (string * val))) : bool :=
+  match r with
+  | RsOk l =>
+      let scopes := eval_scopes val [] (map s2l bl) l in
+      (match sa with [] => true | _ => Nat.eqb (List.length sa) (List.length scopes) end)
+      && forallb (fun p => scope_agree eps (fst (fst p)) (snd p)) (combine scopes sa)
+      && (match ss with [] => true | _ => Nat.eqb (List.length ss) (List.length scopes) end)
+      && forallb (fun p => scope_agree eps (snd (fst p)) (snd p)) (combine scopes ss)
+  | RsErr _ _ => match sa, ss with [], [] => true | _, _ => false end
+  end.
+Definition l2_case (c : (list string * list string * list string * list (string * expr) * list (string * option expr)
+                         * list (string * val) * list (list val) * Q * list string * obs)
+                        * (list string * list (list (string * val)) * list (list (string * val)))) : bool :=
   match c with
-  | (variables, heads, used, sibs, sf, consts, draws, eps, seen, o) =>
+  | ((variables, heads, used, sibs, sf, consts, draws, eps, seen, o), (bl, sa, ss)) =>
       let sibs' := map (fun p => (s2l (fst p), snd p)) sibs in
       match generate_variable_list expr (map s2l variables) (map s2l heads) (map s2l used) (mk_sf sf) with
       | None => false
@@ -740,7 +762,7 @@ Definition l2_case (c : list string * list string * list string * list (string *
           && forallb (fun p => str_eqb (fst p) (s2l (snd p))) (combine vars2 seen)
           && match gen_var_samples val expr expr_vars eval_expr (map s2l variables) (map s2l heads) (map s2l used) sibs'
                                    (mk_sf sf) (mk_env consts) draws with
-             | Some r => agree_obs eps r o
+             | Some r => agree_obs eps r o && scopes_agree eps bl r sa ss
              | None => false
              end
       end
@@ -753,6 +775,17 @@ Definition l0_case (c : list string * list (string * option string)) : bool :=
                     | _, _ => false
                     end) (snd c).
 '''
+
+
+def seen_term(watch, tuples):
+    """values the recording function saw, one association list per sample; None when not expressible"""
+    rows = []
+    for t in tuples:
+        vals = [canon(v) for v in t]
+        if len(t) != len(watch) or any(v is None for v in vals):
+            return None
+        rows.append('[' + '; '.join('("%s", %s)' % (n, coq_val(v)) for n, v in zip(watch, vals)) + ']')
+    return '[' + '; '.join(rows) + ']'
 
 
 def eps_for(sf, consts):
@@ -769,8 +802,8 @@ def l1_graphs(ctx, rng):
     """yield (label, names, sf, consts, orders, samples)"""
     quick = ctx['tier'] == 'quick'
     big = ctx['escalate'] and not quick
-    n_random = 220 if quick else 2200
-    k_orders = 8 if quick else 24
+    n_random = 220 if quick else 1500
+    k_orders = 8 if quick else 16
     for g in range(n_random):
         names, sf, consts = gen_graph(rng, 'g%d/%d' % (ctx['seed'], g))
         r = rng.random()
@@ -796,12 +829,12 @@ def l1_graphs(ctx, rng):
     subsets3 = [[atoms3[i] for i in range(5) if m >> i & 1] for m in range(32)]
     triples = list(itertools.product(range(32), repeat=3))
     if not big:
-        triples = rng.sample(triples, 300 if quick else 6000)
+        triples = rng.sample(triples, 240 if quick else 6000)
     perms = [list(p) for p in itertools.permutations(['a', 'x', 'y', 'z'])]
     for (i, j, l) in triples:
         sf = {'a': ['ind', 'int', 10, stable_seed('ex3', 'a')], 'x': ['dep', formula(subsets3[i])],
               'y': ['dep', formula(subsets3[j])], 'z': ['dep', formula(subsets3[l])]}
-        orders = rng.sample(perms, 3) if big else rng.sample(perms, 4)
+        orders = rng.sample(perms, 2) if big else rng.sample(perms, 3)
         yield ('exhaustive-3', ['a', 'x', 'y', 'z'], sf, {}, orders, 1)
 
 
@@ -1144,7 +1177,7 @@ def oracle_l2(cfg, st, out, seen, log):
 def level2(ctx, res, rng):
     n_cases = 260 if ctx['tier'] == 'quick' else 2500
     if ctx['escalate']:
-        n_cases = max(n_cases, 500)
+        n_cases = max(n_cases, 360)
     terms, metas = [], []
     dist = {}
     for g in range(n_cases):
@@ -1190,20 +1223,25 @@ def level2(ctx, res, rng):
                                       'implementation': sorted(call['constants']), 'expected': sorted(consts)})
         sf_items = '[' + '; '.join('("%s", %s)' % (s, 'None' if sf[s][0] != 'dep' else '(Some %s)' % coq_expr(fromlist(sf[s][1])))
                                    for s in sf) + ']'
-        terms.append('([%s], [%s], [%s], [], %s, %s, %s, %s, [%s], %s)' % (
+        k = cfg['samples']
+        sa = seen_term(cfg['watch'], seen[0::2]) if st == 'ret' and len(seen) == 2 * k else '[]'
+        ss = seen_term(cfg['watch'], seen[1::2]) if st == 'ret' and len(seen) == 2 * k else '[]'
+        if sa is None or ss is None:
+            continue
+        terms.append('(([%s], [%s], [%s], [], %s, %s, %s, %s, [%s], %s), ([], %s, %s))' % (
             '; '.join('"%s"' % v for v in variables), '; '.join('"%s"' % h for h in heads), '; '.join('"%s"' % u for u in used),
-            sf_items, consts_term(consts), d, core.qlit(eps_for(sf, consts)), '; '.join('"%s"' % s for s in call['symbols']), o))
+            sf_items, consts_term(consts), d, core.qlit(eps_for(sf, consts)), '; '.join('"%s"' % s for s in call['symbols']), o, sa, ss))
         metas.append({'variables': variables, 'numbered_vars': heads, 'used': used, 'user_constants': cfg['user_consts'],
                       'sample_from': {s: (sf[s] if sf[s][0] != 'dep' else render(fromlist(sf[s][1]))) for s in sf},
                       'symbols_seen': call['symbols'], 'variant': cfg['variant']})
         res.nontrivial.add(('L2', cfg_key(cfg)))
-    sib_cases(ctx, res, rng, dist)
+    sib_cases(ctx, res, rng, dist, terms, metas)
     res.distribution.update(dist)
     if metas:
         res.samples.append({'L2_case': metas[len(metas) // 5]})
     shard = max(1, -(-len(terms) // 8))
     n, failing, errors = core.eval_agreement('c13_l2', HEADER + AGREE_DEFS, 'l2_case', terms, shard=shard,
-                                             case_type='list string * list string * list string * list (string * expr) * list (string * option expr) * list (string * val) * list (list val) * Q * list string * obs')
+                                             case_type='(list string * list string * list string * list (string * expr) * list (string * option expr) * list (string * val) * list (list val) * Q * list string * obs) * (list string * list (list (string * val)) * list (list (string * val)))')
     res.programs += n
     res.corr_errors += errors
     for i in failing:
@@ -1214,9 +1252,9 @@ def level2(ctx, res, rng):
 def run_sib(cfg):
     from mitxgraders import FormulaGrader, ListGrader
     from mitxgraders import sampling
+    from mitxgraders.helpers import math_helpers
     sampling.set_seed(1)
-    seen = []
-    k = len(cfg['inputs'])
+    seen, calls = [], []
     watch = cfg['watch']
 
     def build():
@@ -1227,10 +1265,28 @@ def run_sib(cfg):
         return ListGrader(answers=answers, subgraders=sub, ordered=True)
     st, g = core.guarded(build)
     if st != 'ret':
-        return 'construct-' + st, g, seen
+        return 'construct-' + st, g, seen, calls
     inputs = [render(fromlist(e)) for e in cfg['inputs'][:-1]] + ['0']
-    st, out = core.guarded(g, None, inputs, seconds=8)
-    return st, out, seen
+    orig = math_helpers.gen_symbols_samples
+
+    def wrapped(symbols, samples, sample_from, functions, suffixes, constants):
+        rec = {'symbols': list(symbols), 'constants': dict(constants), 'out': None, 'exc': None, 'log0': len(LOG)}
+        calls.append(rec)
+        try:
+            rec['out'] = orig(symbols, samples, sample_from, functions, suffixes, constants)
+        except BaseException as e:   # noqa
+            rec['exc'] = e
+            raise
+        finally:
+            rec['log'] = list(LOG[rec['log0']:])
+        return rec['out']
+    del LOG[:]
+    math_helpers.gen_symbols_samples = wrapped
+    try:
+        st, out = core.guarded(g, None, inputs, seconds=8)
+    finally:
+        math_helpers.gen_symbols_samples = orig
+    return st, out, seen, calls
 
 
 def oracle_sib(cfg, st, out, seen):
@@ -1256,7 +1312,7 @@ def oracle_sib(cfg, st, out, seen):
     return fails
 
 
-def sib_cases(ctx, res, rng, dist):
+def sib_cases(ctx, res, rng, dist, terms, metas):
     n = 40 if ctx['tier'] == 'quick' else 400
     for g in range(n):
         nv = rng.randint(1, 3)
@@ -1273,12 +1329,34 @@ def sib_cases(ctx, res, rng, dist):
         watch = list(variables) + ['sibling_%d' % (j + 1) for j in range(nbox - 1)]
         rng.shuffle(watch)
         cfg = {'level': 'SIB', 'variables': variables, 'sf': sf, 'inputs': inputs, 'watch': watch, 'samples': rng.choice([1, 2])}
-        st, out, seen = run_sib(cfg)
+        st, out, seen, calls = run_sib(cfg)
         res.oracle_evals += 1
         for text in oracle_sib(cfg, st, out, seen):
             res.witnesses.append({'key': 'SIB:' + cfg_key(cfg), 'kind': 'siblings', 'cfg': cfg, 'what': text})
             break
         res.nontrivial.add(('SIB', cfg_key(cfg)))
+        # correspondence: the gen_symbols_samples call of the last box (the one that received the sibling formulas)
+        sib_calls = [c for c in calls if any(x.startswith('sibling_') for x in c['symbols'])]
+        if not sib_calls:
+            res.notes.append('siblings: no gen_symbols_samples call received sibling variables (%s %r)' % (st, out))
+            continue
+        call = sib_calls[-1]
+        sibs = [('sibling_%d' % (j + 1), fromlist(e)) for j, e in enumerate(inputs[:-1])]
+        used = set(watch)
+        for _, e in sibs:
+            used |= expr_vars(e)
+        o = obs_term('exc', call['exc'], cfg['samples']) if call['exc'] is not None else obs_term('ret', call['out'], cfg['samples'])
+        d = draws_term(call['log'], len(variables), cfg['samples'])
+        if o is None or d is None:
+            continue
+        sa = seen_term(watch, seen) if st == 'ret' and len(seen) == cfg['samples'] else '[]'
+        if sa is None:
+            continue
+        terms.append('(([%s], [], [%s], [%s], %s, %s, %s, %s, [%s], %s), ([%s], %s, []))' % (
+            '; '.join('"%s"' % v for v in variables), '; '.join('"%s"' % u for u in sorted(used)),
+            '; '.join('("%s", %s)' % (k, coq_expr(e)) for k, e in sibs), sf_term(sf), consts_term(DEFAULT_CONST_SPECS), d,
+            core.qlit(0), '; '.join('"%s"' % x for x in call['symbols']), o, '; '.join('"%s"' % k for k, _ in sibs), sa))
+        metas.append({'variables': variables, 'siblings': {k: render(e) for k, e in sibs}, 'symbols_seen': call['symbols']})
     dist['sibling ListGrader calls'] = n
 
 
@@ -1325,7 +1403,7 @@ def replay(w):
             cfg['variables'], cfg['numbered'], {s: (v if v[0] != 'dep' else render(fromlist(v[1]))) for s, v in cfg['sf'].items()},
             cfg['user_consts'], cfg['samples'], ','.join(cfg['watch']), st, out, '\n'.join(fails[:3]))
     if kind == 'siblings':
-        st, out, seen = run_sib(cfg)
+        st, out, seen, _ = run_sib(cfg)
         fails = oracle_sib(cfg, st, out, seen)
         return bool(fails), 'ListGrader with sibling inputs %r -> %s %r\n%s' % (
             [render(fromlist(e)) for e in cfg['inputs']], st, out, '\n'.join(fails[:3]))
